@@ -314,5 +314,48 @@ def rule_s7(repo):
     return res
 
 
+def rule_s8(repo):
+    """What the user types for a parameter of a method is a term over the variables visible at the *goal*: the selected
+    line `id`.  A fact that is applied lies before the goal, possibly outside the block in which the goal's variables are
+    introduced.  Every context in which a method parses its parameters is therefore built from `state.get_vars(id)` with
+    `id` the method's goal parameter; built from a fact, a parameter that mentions a variable of the goal's own block
+    fails to parse and a suggestion that was offered fails outright."""
+    res = RuleResult('C14.S8', 'a method parses its parameters in the context of the goal line, not of a fact', floor=7)
+    m = repo.module(METHOD)
+    for c in m.classes.values():
+        for mname in ('apply', 'search', 'display_step'):
+            f = c.methods.get(mname)
+            if f is None or len(f.params()) < 3:
+                continue
+            # the goal line: the parameter `id`, or a local read from the request's 'goal_id'
+            goals = {p for p in f.params() if p in ('id', 'goal_id')}
+            for n in ast.walk(f.node):
+                if isinstance(n, ast.Assign) and any(isinstance(x, ast.Constant) and x.value == 'goal_id' for x in ast.walk(n.value)):
+                    goals |= {t.id for t in n.targets if isinstance(t, ast.Name)}
+            if not goals:
+                continue
+            goal = sorted(goals)[0]
+            for w in ast.walk(f.node):
+                if not isinstance(w, ast.With):
+                    continue
+                for it in w.items:
+                    ce = it.context_expr
+                    if not (isinstance(ce, ast.Call) and (call_name(ce) or '').endswith('fresh_context')):
+                        continue
+                    for k in ce.keywords:
+                        if k.arg != 'vars' or not (isinstance(k.value, ast.Call) and call_attr(k.value) == 'get_vars' and k.value.args):
+                            continue
+                        parses = any(isinstance(x, ast.Call) and (call_name(x) or '').split('.')[-1].startswith('parse_') for st in w.body for x in ast.walk(st))
+                        if not parses:
+                            continue
+                        ok = isinstance(k.value.args[0], ast.Name) and k.value.args[0].id in goals
+                        res.add('%s :: %s.%s :: parse-context@%s' % (METHOD, c.name, mname, src(ce, 60)), ok,
+                                'parameters are read over the variables of the goal line' if ok else
+                                'line %d parses the parameters over the variables visible at `%s`, not at the goal `%s`: a parameter that mentions a variable '
+                                'introduced in the goal\'s block (after the fact) is rejected, and the suggested step fails' % (
+                                    w.lineno, src(k.value.args[0], 30), goal), '%s:%d' % (METHOD, w.lineno))
+    return res
+
+
 def rules(repo):
-    return [rule_s1(repo), rule_s2(repo), rule_s3(repo), rule_s4(repo), rule_s5(repo), rule_s6(repo), rule_s7(repo)]
+    return [rule_s1(repo), rule_s2(repo), rule_s3(repo), rule_s4(repo), rule_s5(repo), rule_s6(repo), rule_s7(repo), rule_s8(repo)]
